@@ -319,6 +319,7 @@ func init() {
 		pgdump.ParsePGDatabase(dbF)
 		pgdump.ParsePGClass(clsF)
 		pgdump.ParsePGAttribute(attF, 0)
+		pgdump.ParsePGAttribute(attF, 13)
 		pgdump.ParsePGAttribute(attF, 15)
 		pgdump.ParsePGAttribute(attF, 16)
 		rd := func(fn uint32) ([]byte, error) {
